@@ -369,8 +369,6 @@ type runner struct {
 	imports  int
 }
 
-func (rt *runner) class(s string) { rt.classes[s] = true }
-
 // importVerify imports archive into a fresh target and verifies it with vf.
 func (rt *runner) importVerify(archive []byte, sel selection, stage string, vf func(ep endpoint, stage string) *evid.Violation) outcome {
 	rt.imports++
@@ -633,9 +631,10 @@ func checkRoundTrip(c Case, ev *evid.Collector) *evid.Violation {
 		classes["pre:stale-tag"] = true
 	}
 	nt := hasIndex || g.HasLabel("shared-blob") || g.HasLabel("duplicate-layer") || hasBlobEntry || len(c.Variants) > 0
+	vkey := variantKey(c.Variants, nil) // refined with the link classes once the archive's members are known
 	finish := func(outcomeClass string, counted bool) {
 		classes["outcome:"+outcomeClass] = true
-		ev.Case(counted && nt, g.Shape()+"|"+c.SrcKind+">"+c.TgtKind+fmt.Sprintf("|gz%v,er%d,sd%v,td%v,p%d%v", c.Gzip, c.ExportRef, c.SrcByDig, c.TgtByDig, len(c.Pre.Keep), c.Pre.StaleTag)+"|"+variantKey(c.Variants, nil),
+		ev.Case(counted && nt, g.Shape()+"|"+c.SrcKind+">"+c.TgtKind+fmt.Sprintf("|gz%v,er%d,sd%v,td%v,p%d%v", c.Gzip, c.ExportRef, c.SrcByDig, c.TgtByDig, len(c.Pre.Keep), c.Pre.StaleTag)+"|"+vkey,
 			sortedKeys(classes)...)
 	}
 	// ---- export
@@ -685,6 +684,7 @@ func checkRoundTrip(c Case, ev *evid.Collector) *evid.Violation {
 		finish("archive-unreadable", false)
 		return evid.V("archive-unreadable", "the stream written by ImageExport is not a readable tar archive: %v", err)
 	}
+	vkey = variantKey(c.Variants, regNamesOf(entries))
 	if gz {
 		classes["archive:gzip"] = true
 	} else {
